@@ -77,6 +77,35 @@ def run_api(entry, style, precision, arg, profile="dev"):
     return {"outcome": "crash", "message": f"exit {p.returncode}: {p.stderr[-300:]}"}
 
 
+_cli_built = {}
+
+
+def build_cli(profile):
+    """The real command-line tool (rsass-cli, binary `rsass`) of the tree under test."""
+    if profile in _cli_built:
+        return _cli_built[profile]
+    from common import CACHE, REPO
+    target = os.path.join(CACHE, "cli-target")
+    cmd = ["cargo", "build", "--locked", "--offline", "--target-dir", target, "--bin", "rsass"]
+    if profile == "release":
+        cmd.append("--release")
+    p = subprocess.run(cmd, cwd=os.path.join(REPO, "rsass-cli"), env=base_env(), capture_output=True, text=True)
+    if p.returncode != 0:
+        _cli_built[profile] = None
+        raise RuntimeError("rsass-cli build failed:\n" + p.stderr[-3000:])
+    _cli_built[profile] = os.path.join(target, "release" if profile == "release" else "debug", "rsass")
+    return _cli_built[profile]
+
+
+def run_cli(argv, cwd, profile="dev"):
+    exe = build_cli(profile)
+    try:
+        p = subprocess.run([exe] + list(argv), cwd=cwd, capture_output=True, text=True, timeout=120)
+    except subprocess.TimeoutExpired:
+        return {"code": None, "stdout": "", "stderr": "timeout"}
+    return {"code": p.returncode, "stdout": p.stdout, "stderr": p.stderr}
+
+
 def replay_both(harness, values, features=()):
     dev = run(harness, values, "dev", features)
     rel = run(harness, values, "release", features)
